@@ -64,7 +64,8 @@ def exec_for(I, node, env):
     fn = getattr(env, 'func_node', None)
     spec = None
     if fn is not None:
-        spec = I.loop_specs.get((env.qual, loop_ordinal(fn, node)))
+        header = f'for {ast.unparse(node.target)} in {ast.unparse(node.iter)}'
+        spec = I.loop_specs.get((env.qual, header)) or I.loop_specs.get((env.qual, loop_ordinal(fn, node)))
     if spec is not None:
         return invariant_loop(I, node, env, src, spec)
     return map_loop(I, node, env, src)
@@ -220,14 +221,61 @@ def sym_method(I, obj, m, args, kwargs):
     raise Unsupported(f'method {m} on {obj.tag}')
 
 
+def scatter_loop(I, node, env, src):
+    """`for idx, val in updates: lst[idx] = val` (plus dead temporaries): the list keeps its
+    length, its contents after the loop are abstracted (an unknown function of the position).
+    Value-level facts about the result are NOT proved through this rule."""
+    stores = [n for n in ast.walk(ast.Module(body=node.body, type_ignores=[]))
+              if isinstance(n, ast.Assign) and any(isinstance(t, ast.Subscript) for t in n.targets)]
+    if len(stores) != 1 or not isinstance(stores[0].targets[0].value, ast.Name):
+        return False
+    lst = stores[0].targets[0].value.id
+    for st in node.body:
+        if st is stores[0]:
+            continue
+        if not (isinstance(st, ast.Assign) and len(st.targets) == 1 and isinstance(st.targets[0], ast.Name)):
+            return False
+        # temporaries must be dead afterwards: not already live
+        if _is_live(st.targets[0].id, env):
+            return False
+    cur = env.lookup(lst)
+    if not isinstance(cur, (VSeq, VList)):
+        return False
+    vs = B.as_vseq(I, cur)
+    from .model import PyVal
+    f = z3.Function(fresh_name('scattered'), z3.IntSort(), PyVal)
+    e = env
+    while e is not None and lst not in e.vars:
+        e = e.parent
+    (e or env).vars[lst] = VSeq(vs.src_len, lambda i: VAny(f(i)), None, 'list')
+    I.assumption('scatter-loop abstraction: list contents after `for i, v in updates: lst[i] = v` are not tracked (length is)')
+    return True
+
+
 def map_loop(I, node, env, src):
     """`for x in xs: ... out.append(E) ...` with no loop-carried state  ==  out += [E | x in xs if P]."""
     from .interp import PyRaise, ReturnSig, BreakSig, ContinueSig, Env
+    if scatter_loop(I, node, env, src):
+        return
     appended = set()
     for n in ast.walk(ast.Module(body=node.body, type_ignores=[])):
         if isinstance(n, ast.Call) and isinstance(n.func, ast.Attribute) and n.func.attr == 'append' \
                 and isinstance(n.func.value, ast.Name):
             appended.add(n.func.value.id)
+    # calls of local one-line lambdas `f = lambda a, b: lst.append(...)` count as appends to lst
+    lam_targets = {}
+    for n in ast.walk(ast.Module(body=node.body, type_ignores=[])):
+        if isinstance(n, ast.Call) and isinstance(n.func, ast.Name):
+            try:
+                fv = env.lookup(n.func.id)
+            except KeyError:
+                continue
+            if isinstance(fv, VFunc) and fv.kind == 'def' and isinstance(fv.node, ast.Lambda):
+                b = fv.node.body
+                if isinstance(b, ast.Call) and isinstance(b.func, ast.Attribute) and b.func.attr == 'append' \
+                        and isinstance(b.func.value, ast.Name):
+                    appended.add(b.func.value.id)
+                    lam_targets[b.func.value.id] = fv
     if not appended:
         raise Unsupported(f'loop at line {node.lineno}: symbolic length, no invariant, not a map-loop')
     targets = assigned_names([node.target])
@@ -256,18 +304,31 @@ def map_loop(I, node, env, src):
             e2.func_node = getattr(env, 'func_node', None)
             recs = {name: Recorder(name) for name in appended}
             e2.vars.update(recs)
+            # lambdas defined in the enclosing activation see that activation's variables
+            saved = {}
+            for name in lam_targets:
+                ee = env
+                while ee is not None and name not in ee.vars:
+                    ee = ee.parent
+                if ee is not None:
+                    saved[name] = (ee, ee.vars[name])
+                    ee.vars[name] = recs[name]
             I.assign(node.target, src.elem(i), e2)
             try:
                 try:
-                    I.exec_block(node.body, e2)
-                except ContinueSig:
-                    pass
-            except BreakSig:
-                raise Unsupported('break inside a map-loop')
-            except ReturnSig:
-                raise Unsupported('return inside a map-loop')
-            except PyRaise as pr:
-                return ('raise', pr.exc, None)
+                    try:
+                        I.exec_block(node.body, e2)
+                    except ContinueSig:
+                        pass
+                except BreakSig:
+                    raise Unsupported('break inside a map-loop')
+                except ReturnSig:
+                    raise Unsupported('return inside a map-loop')
+                except PyRaise as pr:
+                    return ('raise', pr.exc, None)
+            finally:
+                for name, (ee, old) in saved.items():
+                    ee.vars[name] = old
             return ('return', VTuple([VTuple(list(recs[nm].appended)) for nm in sorted(appended)]), None)
         res = I.ex.explore_nested(thunk)
         out = {}
